@@ -246,6 +246,7 @@ def case_N(c):
 FAM = {"A": case_A, "B": case_B, "N": case_N}
 
 
+@common.guarded("C07")
 def _case(c):
     return FAM[c[0]](c[1])
 
